@@ -11,6 +11,7 @@ S(kind, name, typ, body, binds) == [kind |-> kind, name |-> name, typ |-> typ, b
 Alphabet == {
   S("acl", "A", "extended", <<"l1", "l2">>, <<>>), S("acl", "B", "standard", <<"l3">>, <<>>),
   S("group", "G", "", <<"m1", "m2">>, <<>>), S("group", "G", "", <<"m3">>, <<>>),
+  S("group", "G", "", <<"m1", "ref:H">>, <<>>), S("group", "H", "", <<"ref:G", "m4">>, <<>>), S("group", "H", "", <<"m5", "ref:X">>, <<>>),
   S("intf", "i1", "", <<>>, <<<<"A", "in">>, <<"B", "out">>>>), S("intf", "i2", "", <<>>, <<<<"A", "in">>, <<"A", "out">>>>),
   S("intf", "i3", "", <<>>, <<>>), S("noise", "n", "", <<"x">>, <<>>) }
 Configs == {c \in UNION {[1..n -> Alphabet] : n \in 0..MaxSecs} : NamesDistinct(c)}
@@ -26,6 +27,12 @@ Noise(i) == /\ i <= Len(cfg) + 1 /\ last = "init" /\ Len(cfg) < MaxSecs + 1
 Next == \E i \in 1..(MaxSecs + 1) : Swap(i) \/ Noise(i)
 Spec == Init /\ [][Next]_vars
 
+RefMC(line) == CASE line = "ref:G" -> "G" [] line = "ref:H" -> "H" [] line = "ref:X" -> "X" [] OTHER -> ""
+(* nested groups are always expanded into ordinary members, whatever the reference structure (loops, undefined names) *)
+P_Flat == \A g \in {"G", "H", "X"} : \A k \in 1..Len(MembersFor(cfg, g)) : RefMC(MembersFor(cfg, g)[k]) = ""
+(* a group that is defined once and references nothing yields its own lines *)
+P_Plain == \A g \in {"G", "H"} : (Len(GroupSecs(cfg, g)) = 1 /\ \A k \in 1..Len(GroupSecs(cfg, g)[1].body) : RefMC(GroupSecs(cfg, g)[1].body[k]) = "")
+                                  => MembersFor(cfg, g) = GroupSecs(cfg, g)[1].body
 Filters == {{"*"}, {"A"}, {"B"}, {"A", "B"}, {"C"}, {}}
 P_Invariant == last # "init" => \A f \in Filters : Extract(cfg, f) = Extract(prev, f) /\ \A g \in {"G", "H"} : MembersFor(cfg, g) = MembersFor(prev, g)
 P_Once == \A f \in Filters : \A i \in 1..Len(Extract(cfg, f)) : \A j \in 1..Len(Extract(cfg, f)) : i # j => Extract(cfg, f)[i].name # Extract(cfg, f)[j].name
